@@ -1,14 +1,15 @@
 #!/bin/bash
-# usage: tools/seedcheck.sh <ID> [seeddir-name(SEED)] [extra property ids to run...]
+# usage: [AGENT_WT=<agent worktree>] [OUT_NAME=<dir under seeded/>] tools/seedcheck.sh <ID> [seeddir-name(SEED)] [extra property ids to run...]
 # Confirms a seeded change written by a sub-agent in /tmp/seed-<ID>/<SEED>/patch.diff:
 #  1. applies it to a fresh scratch worktree of /repo HEAD (/tmp/sv-<ID>), builds;
 #  2. runs the repository test suite there (JSON) and lists failing tests not in the always-failing set;
 #  3. runs ./check <ID> (quick) against it via VERIF_REPO and reports whether a VIOLATION was printed;
 #  4. removes the worktree.
 id=$1; sd=${2:-SEED}; shift; shift
-src=/tmp/seed-$id/$sd
+awt=${AGENT_WT:-/tmp/seed-$id}
+src=$awt/$sd
 wt=/tmp/sv-$id-$sd
-sfx=${sd#SEED}; out=/verif/seeded/$id${sfx:+-$sfx}
+sfx=${sd#SEED}; out=/verif/seeded/${OUT_NAME:-$id${sfx:+-$sfx}}
 mkdir -p $out
 git -C /repo worktree remove --force $wt 2>/dev/null
 git -C /repo worktree add -q --detach $wt HEAD || exit 1
@@ -19,7 +20,7 @@ if ! git -C $wt apply $out/patch.diff; then echo "PATCH DOES NOT APPLY"; git -C 
 if [ -n "$DEMO_CMD" ]; then
   mkdir -p $out/demo
   # each entry is src[:dst] relative to the agent's worktree / the scratch worktree
-  for e in $DEMO_FILES; do f=${e%%:*}; d=${e##*:}; mkdir -p $wt/$(dirname $d); cp /tmp/seed-$id/$f $wt/$d; cp /tmp/seed-$id/$f $out/demo/$(basename $d); done
+  for e in $DEMO_FILES; do f=${e%%:*}; d=${e##*:}; mkdir -p $wt/$(dirname $d); cp $awt/$f $wt/$d; cp $awt/$f $out/demo/$(basename $d); done
   echo "== demo WITH the change (must fail)"
   (cd $wt && eval "$DEMO_CMD" > $out/demo_with.txt 2>&1; echo "demo exit with change: $?") | tee -a $out/demo_result.txt
   git -C $wt apply -R $out/patch.diff
@@ -39,7 +40,7 @@ for l in sys.stdin:
 print('FAILING:', sorted(fails))
 ") | tee $out/suite.txt
 echo "== check $id against patched tree"
-(cd /verif && VERIF_REPO=$wt timeout 1500 ./check $id 2>&1 | grep -E "VIOLATION|quick:|BUILD|INCONCL|KNOWN" | cut -c1-250 | head -8) | tee $out/check.txt
+(cd /verif && VERIF_REPO=$wt timeout 1500 ./check $id 2>&1 | grep -E "VIOLATION|quick:|BUILD|INCONCL" | cut -c1-250 | head -8) | tee $out/check.txt
 for extra in "$@"; do
   echo "== check $extra against patched tree"
   (cd /verif && VERIF_REPO=$wt timeout 1500 ./check $extra 2>&1 | grep -E "VIOLATION|quick:|BUILD|INCONCL" | cut -c1-250 | head -4) | tee -a $out/check.txt
